@@ -184,11 +184,23 @@ impl Ctl {
 		*self = Ctl::new();
 	}
 	pub fn push_event(&mut self, e: &str) {
+		if self.sched {
+			// Level B: one global list of bev (coq/Conc.v)
+			let w = format!("BE ({e})");
+			self.push_bev(&w);
+		} else {
+			self.push_bev(e);
+		}
+	}
+	pub fn push_bev(&mut self, e: &str) {
 		if !self.events.is_empty() {
 			self.events.push_str("; ");
 		}
 		self.events.push_str(e);
 		self.nevents += 1;
+	}
+	pub fn held_by(&self, t: usize) -> Vec<usize> {
+		(0..self.locks.len()).filter(|&l| self.locks[l].st.writer == Some(t) || self.locks[l].st.readers.contains(&t)).collect()
 	}
 	pub fn take_events(&mut self) -> String {
 		std::mem::take(&mut self.events)
